@@ -59,6 +59,8 @@ def partition_column(draw, name, kinds=("int", "float", "bool", "datetime", "tex
         col["pool"] = draw(st.lists(small, min_size=draw(st.sampled_from([1, 2, 2])), max_size=4, unique=True))
     elif kind == "float":
         col["sub"] = "float64"
+        if draw(st.integers(0, 3)) == 0:
+            col["ext"] = "Float64"      # the pandas masked float type
         col["pool"] = draw(st.lists(st.sampled_from([0.5, 1.0, -2.25, 1e5, 0.7, 100.0, 3.0, -0.5, 2.5]),
                                     min_size=1, max_size=4, unique=True))
         if nulls and draw(st.integers(0, 4)) == 0:
